@@ -5,7 +5,8 @@ package transaction
 
 //@ # ---------------------------------------------------------------- signature recovery (C23, C05)
 //@ func RecoverPlain
-//@   serves C23 C05
+//@   serves C23 C05 C07
+//@   nopanic
 //@   let N = 115792089237316195423570985008687907852837564279074904382605163141518161494337
 //@   requires R != nil && S != nil && Vb != nil && Vb.val >= 0
 //@   ensures recid: result1 == nil ==> old(Vb.val) == 27 || old(Vb.val) == 28
@@ -139,6 +140,7 @@ package transaction
 //@   requires fundsmodule: st.FrozenFunds != nil && (deliver ==> st.FrozenFunds.bus != nil && st.FrozenFunds.bus == st.Accounts.bus)
 //@   requires stakemodules: st.Candidates != nil && st.Waitlist != nil && (deliver ==> st.Candidates.bus == st.Accounts.bus && st.Waitlist.bus == st.Accounts.bus)
 //@   requires appmodule: st.App != nil
+//@   requires gascoin: txcc == 0 || coinExists(st.Coins, txcc)
 //@   # C27: the price handed to every Run is gas price x (type price + bytes x byte price) when the table is in the base coin
 //@   requires [C27] feeprice: tbl.Coin == 0 ==> arg4.val == arg0.GasPrice * (typePrice(recv, tbl) + (len(arg0.Payload) + len(arg0.ServiceData)) * tbl.PayloadByte.val)
 //@   requires feesign: arg4.val >= 0 && arg4 != arg2
@@ -494,7 +496,8 @@ package transaction
 
 //@ # ---------------------------------------------------------------- Run implementations checked against the interface contract
 //@ func (SendData).Run
-//@   serves C03 C04 C05 C27 C02
+//@   serves C03 C04 C05 C27 C02 C07
+//@   nopanic
 //@   implements iface Data.Run
 //@   assumes wf: data.Value != nil && data.Value.val >= 0 && data.Value != rewardPool
 //@   assumes typed: tx.Type == TypeSend
@@ -502,6 +505,7 @@ package transaction
 //@   let snd = senderOf(tx)
 //@   ensures [C02] transferred: result.Code == 0 && deliver && tx.GasCoin == 0 && data.Coin != 0 && data.To != snd ==> bal(accs, data.Coin, data.To) == old(bal(accs, data.Coin, data.To)) + data.Value.val && bal(accs, data.Coin, snd) == old(bal(accs, data.Coin, snd)) - data.Value.val && bal(accs, 0, snd) == old(bal(accs, 0, snd)) - old(price.val)
 //@   loop 0 invariant grows: forall c types.CoinID, a types.Address :: bal(accs, c, a) >= old(bal(accs, c, a))
+//@   loop 0 invariant idx: -1 <= rangeindex && rangeindex < len(ownersCom)
 //@   loop 0 invariant frame: nonce == old(nonce) && otherState == old(otherState) && rewardPool.val == old(rewardPool.val)
 
 //@ # C21: a check pays out at most once (per block: the used-check set; across blocks: the committed tree, not under
@@ -529,6 +533,7 @@ package transaction
 //@   ensures [C05] onlyissuer: forall c types.CoinID, a types.Address :: a != issuer ==> bal(accs, c, a) >= old(bal(accs, c, a))
 //@   covers delivered: result.Code == 0 && deliver && tx.GasCoin == 0 && chk.Coin != 0
 //@   loop 0 invariant grows: forall c types.CoinID, a types.Address :: bal(accs, c, a) >= old(bal(accs, c, a))
+//@   loop 0 invariant idx: -1 <= rangeindex && rangeindex < len(ownersCom)
 //@   loop 0 invariant onlygas: select(bal, accs) == store(select(old(bal), accs), tx.GasCoin, select(select(bal, accs), tx.GasCoin))
 //@   loop 0 invariant frame: nonce == old(nonce) && otherState == old(otherState) && rewardPool.val == old(rewardPool.val)
 
@@ -536,10 +541,15 @@ package transaction
 //@ # Lock: accepted only with a due block after the current one; the coins go into the bucket of exactly that block, as an
 //@ # unlock item (no candidate, no move target) of the sender
 //@ func (LockData).basicCheck
+//@   serves C07
+//@   nopanic
+//@   requires context != nil && context.state != nil && context.state.Coins != nil
 //@   ensures result != nil ==> result.Code != 0
+//@   ensures exists: result == nil ==> data.Coin == 0 || coinExists(context.state.Coins, data.Coin)
 //@   modifies coinsCache
 //@ func (LockData).Run
-//@   serves C16 C03 C04 C05 C27 C02 C01
+//@   serves C16 C03 C04 C05 C27 C02 C01 C07
+//@   nopanic
 //@   implements iface Data.Run
 //@   assumes wf: data.Value != nil && data.Value.val >= 0 && data.Value != rewardPool
 //@   assumes typed: tx.Type == TypeLock
@@ -550,10 +560,12 @@ package transaction
 //@   ensures [C16,C01] due: result.Code == 0 ==> data.DueBlock > currentBlock
 //@   ensures [C16] frozen: result.Code == 0 && deliver ==> m != nil && len(m.List) == n + 1 && m.List[n].Address == snd && m.List[n].CandidateKey == nil && m.List[n].Coin == data.Coin && m.List[n].Value == data.Value && len(m.List[n].MoveToCandidate) == 0
 //@   ensures [C16] otherheights: forall h int :: h != data.DueBlock ==> ffModel(ff, h) == old(ffModel(ff, h))
-//@   ensures [C16] kept: result.Code == 0 && deliver ==> forall i int :: 0 <= i && i < n ==> m.List[i] == old(ffModel(ff, data.DueBlock).List[i])
+//@   # (stated for an arbitrary fixed index anyI(): holds for every index)
+//@   ensures [C16] kept: result.Code == 0 && deliver && 0 <= anyI() && anyI() < n ==> m.List[anyI()] == old(ffModel(ff, data.DueBlock).List[anyI()])
 //@   ensures [C02] debited: result.Code == 0 && deliver && tx.GasCoin == 0 && data.Coin != 0 ==> bal(accs, data.Coin, snd) == old(bal(accs, data.Coin, snd)) - data.Value.val && bal(accs, 0, snd) == old(bal(accs, 0, snd)) - old(price.val)
 //@   covers delivered: result.Code == 0 && deliver && tx.GasCoin == 0 && data.Coin != 0
 //@   loop 0 invariant grows: forall c types.CoinID, a types.Address :: bal(accs, c, a) >= old(bal(accs, c, a))
+//@   loop 0 invariant idx: -1 <= rangeindex && rangeindex < len(ownersCom)
 //@   loop 0 invariant frame: nonce == old(nonce) && otherState == old(otherState) && rewardPool.val == old(rewardPool.val) && ffModel == old(ffModel) && allof(frozenfunds.Model.List) == old(allof(frozenfunds.Model.List))
 
 //@ # unbond / move periods of the network (mainnet values from the protocol description; testnet values in brackets)
@@ -562,7 +574,8 @@ package transaction
 
 //@ # validity tests of unbond: pure with respect to every module (only lazy caches may fill)
 //@ func (UnbondDataV3).basicCheck
-//@   serves C03 C16
+//@   serves C03 C16 C07
+//@   nopanic
 //@   requires tx != nil && context != nil && context.state != nil && context.state.Coins != nil && context.state.Waitlist != nil && context.state.Candidates != nil && data.Value != nil
 //@   requires senderKnown(tx)
 //@   ensures failcode: result != nil ==> result.Code != 0
@@ -574,7 +587,8 @@ package transaction
 //@ # C16: an unbond is refused while the sender's stake is locked; an accepted one leaves the stake (or waitlist) and
 //@ # enters the bucket of exactly currentBlock + unbond period as an unbond item of the sender (never a move)
 //@ func (UnbondDataV3).Run
-//@   serves C16 C03 C04 C05 C27
+//@   serves C16 C03 C04 C05 C27 C07
+//@   nopanic
 //@   implements iface Data.Run
 //@   assumes wf: data.Value != nil && data.Value.val >= 0 && data.Value != rewardPool
 //@   assumes typed: tx.Type == TypeUnbond
@@ -587,14 +601,16 @@ package transaction
 //@   ensures [C16] lockedstake: old(lockUntil(accs, snd)) > currentBlock ==> result.Code != 0
 //@   ensures [C16] frozen: result.Code == 0 && deliver ==> m != nil && len(m.List) == n + 1 && m.List[n].Address == snd && m.List[n].Coin == data.Coin && m.List[n].Value == data.Value && len(m.List[n].MoveToCandidate) == 0
 //@   ensures [C16] otherheights: forall h int :: h != due ==> ffModel(ff, h) == old(ffModel(ff, h))
-//@   ensures [C16] kept: result.Code == 0 && deliver ==> forall i int :: 0 <= i && i < n ==> m.List[i] == old(ffModel(ff, due).List[i])
+//@   ensures [C16] kept: result.Code == 0 && deliver && 0 <= anyI() && anyI() < n ==> m.List[anyI()] == old(ffModel(ff, due).List[anyI()])
 //@   covers delivered: result.Code == 0 && deliver && tx.GasCoin == 0
 //@   loop 0 invariant grows: forall c types.CoinID, a types.Address :: bal(accs, c, a) >= old(bal(accs, c, a))
+//@   loop 0 invariant idx: -1 <= rangeindex && rangeindex < len(ownersCom)
 //@   loop 0 invariant frame: nonce == old(nonce) && otherState == old(otherState) && rewardPool.val == old(rewardPool.val) && ffModel == old(ffModel) && allof(frozenfunds.Model.List) == old(allof(frozenfunds.Model.List)) && stakeObj == old(stakeObj) && allof(candidates.stake.Value) == old(allof(candidates.stake.Value)) && wlItem == old(wlItem)
 
 //@ # validity tests of a stake move: pure with respect to every module; the target must be a live candidate (C16)
 //@ func (MoveStakeData).basicCheck
-//@   serves C03 C16
+//@   serves C03 C16 C07
+//@   nopanic
 //@   requires tx != nil && context != nil && context.state != nil && context.state.Coins != nil && context.state.Waitlist != nil && context.state.Candidates != nil && data.Value != nil
 //@   requires senderKnown(tx)
 //@   ensures failcode: result != nil ==> result.Code != 0
@@ -607,7 +623,8 @@ package transaction
 //@ # C16: an accepted move leaves the stake (or waitlist) and enters the bucket of exactly currentBlock + move period as a
 //@ # move item whose target is the id of a candidate that exists (so it can only ever be delegated, never paid out)
 //@ func (MoveStakeData).Run
-//@   serves C16 C03 C04 C05 C27
+//@   serves C16 C03 C04 C05 C27 C07
+//@   nopanic
 //@   implements iface Data.Run
 //@   assumes wf: data.Value != nil && data.Value.val >= 0 && data.Value != rewardPool
 //@   assumes typed: tx.Type == TypeMoveStake
@@ -622,15 +639,17 @@ package transaction
 //@   ensures [C16] ismove: result.Code == 0 && deliver ==> len(m.List[n].MoveToCandidate) == 1 && m.List[n].MoveToCandidate[0] == candID(st.Candidates, data.ToPubKey)
 //@   ensures [C16] realtarget: result.Code == 0 && deliver ==> candID(st.Candidates, data.ToPubKey) != 0
 //@   ensures [C16] otherheights: forall h int :: h != due ==> ffModel(ff, h) == old(ffModel(ff, h))
-//@   ensures [C16] kept: result.Code == 0 && deliver ==> forall i int :: 0 <= i && i < n ==> m.List[i] == old(ffModel(ff, due).List[i])
+//@   ensures [C16] kept: result.Code == 0 && deliver && 0 <= anyI() && anyI() < n ==> m.List[anyI()] == old(ffModel(ff, due).List[anyI()])
 //@   covers delivered: result.Code == 0 && deliver && tx.GasCoin == 0
 //@   loop 0 invariant grows: forall c types.CoinID, a types.Address :: bal(accs, c, a) >= old(bal(accs, c, a))
+//@   loop 0 invariant idx: -1 <= rangeindex && rangeindex < len(ownersCom)
 //@   loop 0 invariant frame: nonce == old(nonce) && otherState == old(otherState) && rewardPool.val == old(rewardPool.val) && ffModel == old(ffModel) && allof(frozenfunds.Model.List) == old(allof(frozenfunds.Model.List)) && stakeObj == old(stakeObj) && allof(candidates.stake.Value) == old(allof(candidates.stake.Value)) && wlItem == old(wlItem)
 
 //@ # ---------------------------------------------------------------- candidate control (C05) and the jail gate (C18)
 //@ # accepted only for a live candidate and only from its owner or control address
 //@ func checkCandidateControl
-//@   serves C05 C18
+//@   serves C05 C18 C07
+//@   nopanic
 //@   requires tx != nil && context != nil && context.state != nil && context.state.Candidates != nil && senderKnown(tx)
 //@   ensures failcode: result != nil ==> result.Code != 0
 //@   ensures [C05] controller: result == nil ==> candExists(context.state.Candidates, pubkeyOf(data)) && candObj(context.state.Candidates, pubkeyOf(data)) != nil && (senderOf(tx) == candObj(context.state.Candidates, pubkeyOf(data)).OwnerAddress || senderOf(tx) == candObj(context.state.Candidates, pubkeyOf(data)).ControlAddress)
@@ -648,7 +667,8 @@ package transaction
 
 //@ # C18: a jailed candidate (jail height not yet passed) cannot be switched on; C05: only owner or control address can
 //@ func (SetCandidateOnData).Run
-//@   serves C18 C03 C04 C05 C27
+//@   serves C18 C03 C04 C05 C27 C07
+//@   nopanic
 //@   implements iface Data.Run
 //@   assumes typed: tx.Type == TypeSetCandidateOnline
 //@   let snd = senderOf(tx)
@@ -659,6 +679,7 @@ package transaction
 //@   ensures [C18] onlythis: forall o *candidates.Candidate :: o != cand ==> o.Status == old(o.Status)
 //@   covers delivered: result.Code == 0 && deliver && tx.GasCoin == 0
 //@   loop 0 invariant grows: forall c types.CoinID, a types.Address :: bal(accs, c, a) >= old(bal(accs, c, a))
+//@   loop 0 invariant idx: -1 <= rangeindex && rangeindex < len(ownersCom)
 //@   loop 0 invariant frame: nonce == old(nonce) && otherState == old(otherState) && rewardPool.val == old(rewardPool.val) && allof(candidates.Candidate.Status) == old(allof(candidates.Candidate.Status))
 
 //@ # ---------------------------------------------------------------- C02: supply and reserve limits
@@ -745,6 +766,7 @@ package transaction
 //@   ensures [C02] bought: result.Code == 0 && deliver && data.CoinToBuy != 0 && tx.GasCoin == 0 && data.CoinToSell == 0 ==> coinVolume(st.Coins, data.CoinToBuy) == old(coinVolume(st.Coins, data.CoinToBuy)) + data.ValueToBuy.val && coinVolume(st.Coins, data.CoinToBuy) <= coinMaxOf(st.Coins, data.CoinToBuy)
 //@   covers delivered: result.Code == 0 && deliver && tx.GasCoin == 0 && data.CoinToBuy != 0 && data.CoinToSell == 0
 //@   loop 0 invariant grows: forall c types.CoinID, a types.Address :: bal(accs, c, a) >= old(bal(accs, c, a))
+//@   loop 0 invariant idx: -1 <= rangeindex && rangeindex < len(ownersCom)
 //@   loop 0 invariant frame: nonce == old(nonce) && otherState == old(otherState) && rewardPool.val == old(rewardPool.val) && coinVolume == old(coinVolume) && coinReserve == old(coinReserve)
 //@ ghost coinCrr(c CalculateCoin) int
 //@ func iface CalculateCoin.Crr
@@ -755,7 +777,8 @@ package transaction
 
 //@ # ---------------------------------------------------------------- C22: only the ticker owner mints, within the maximum supply
 //@ func (MintTokenData).basicCheck
-//@   serves C22 C05 C02
+//@   serves C22 C05 C02 C07
+//@   nopanic
 //@   requires tx != nil && context != nil && context.state != nil && context.state.Coins != nil && data.Value != nil && senderKnown(tx)
 //@   let cs = context.state.Coins
 //@   let m = coinModel(cs, data.Coin)
@@ -768,7 +791,8 @@ package transaction
 //@   modifies coinsCache, senderKnown(tx)
 
 //@ func (MintTokenData).Run
-//@   serves C22 C02 C03 C04 C05 C27
+//@   serves C22 C02 C03 C04 C05 C27 C07
+//@   nopanic
 //@   implements iface Data.Run
 //@   assumes wf: data.Value != nil && data.Value.val >= 0 && data.Value != rewardPool
 //@   assumes typed: tx.Type == TypeMintToken
@@ -778,12 +802,16 @@ package transaction
 //@   ensures [C02,C22] minted: result.Code == 0 && deliver && data.Coin != 0 && tx.GasCoin == 0 ==> coinVolume(st.Coins, data.Coin) == old(coinVolume(st.Coins, data.Coin)) + data.Value.val && coinVolume(st.Coins, data.Coin) <= coinMaxOf(st.Coins, data.Coin) && bal(accs, data.Coin, snd) == old(bal(accs, data.Coin, snd)) + data.Value.val
 //@   covers delivered: result.Code == 0 && deliver && tx.GasCoin == 0 && data.Coin != 0
 //@   loop 0 invariant grows: forall c types.CoinID, a types.Address :: bal(accs, c, a) >= old(bal(accs, c, a))
+//@   loop 0 invariant idx: -1 <= rangeindex && rangeindex < len(ownersCom)
 //@   loop 0 invariant frame: nonce == old(nonce) && otherState == old(otherState) && rewardPool.val == old(rewardPool.val) && coinVolume == old(coinVolume) && coinReserve == old(coinReserve)
 
 //@ # ---------------------------------------------------------------- C22: a new token gets the next unused id and a free ticker
 //@ func (CreateTokenData).basicCheck
-//@   serves C22
+//@   serves C22 C07
+//@   nopanic
 //@   requires context != nil && context.state != nil && context.state.Coins != nil
+//@   # (the RLP decoder never leaves a *big.Int field nil)
+//@   requires decoded: data.InitialAmount != nil && data.MaxSupply != nil
 //@   ensures failcode: result != nil ==> result.Code != 0
 //@   ensures [C22] freeticker: result == nil ==> !symTaken(context.state.Coins, data.Symbol)
 //@   ensures amounts: result == nil ==> data.InitialAmount != nil && data.MaxSupply != nil && data.InitialAmount.val <= data.MaxSupply.val
@@ -792,9 +820,10 @@ package transaction
 //@   trusted
 //@   modifies nothing
 //@ func (CreateTokenData).Run
-//@   serves C22 C03 C04 C05 C27
+//@   serves C22 C03 C04 C05 C27 C07
+//@   nopanic
 //@   implements iface Data.Run
-//@   assumes wf: data.InitialAmount != nil ==> data.InitialAmount.val >= 0 && data.InitialAmount != rewardPool
+//@   assumes wf: data.InitialAmount != nil && data.MaxSupply != nil && data.InitialAmount.val >= 0 && data.InitialAmount != rewardPool
 //@   assumes typed: tx.Type == TypeCreateToken
 //@   # state invariant (assumed): no coin exists with an id above the counter, and the counter has not wrapped
 //@   assumes counter: st.App.model != nil && 0 <= st.App.model.CoinsCount && st.App.model.CoinsCount < 4294967295 && forall i types.CoinID :: i > st.App.model.CoinsCount ==> !coinExists(st.Coins, i)
@@ -806,4 +835,28 @@ package transaction
 //@   ensures [C22] supply: result.Code == 0 && deliver && tx.GasCoin == 0 ==> coinVolume(st.Coins, n + 1) == data.InitialAmount.val && coinVolume(st.Coins, n + 1) <= coinMaxOf(st.Coins, n + 1) && bal(accs, n + 1, snd) == old(bal(accs, n + 1, snd)) + data.InitialAmount.val
 //@   covers delivered: result.Code == 0 && deliver && tx.GasCoin == 0
 //@   loop 0 invariant grows: forall c types.CoinID, a types.Address :: bal(accs, c, a) >= old(bal(accs, c, a))
+//@   loop 0 invariant idx: -1 <= rangeindex && rangeindex < len(ownersCom)
 //@   loop 0 invariant frame: nonce == old(nonce) && otherState == old(otherState) && rewardPool.val == old(rewardPool.val) && coinVolume == old(coinVolume) && coinReserve == old(coinReserve) && coinExists == old(coinExists) && symTaken == old(symTaken) && allof(app.Model.CoinsCount) == old(allof(app.Model.CoinsCount)) && st.App.model == old(st.App.model)
+
+//@ # ---------------------------------------------------------------- C07: assumed not to fail
+//@ # ASSUMED: JSON marshalling of the response/tag structs (plain data, no channels or functions) never fails, so the
+//@ # panics behind EncodeError and tagPoolChange.string are unreachable
+//@ func EncodeError
+//@   trusted
+//@   modifies nothing
+//@ func (*tagPoolChange).string
+//@   trusted
+//@   modifies nothing
+
+//@ # C07/C05: a multisig wallet is only created with as many weights as owners (at most 32, each weight at most 1023):
+//@ # this is what keeps Multisig.GetWeight's index inside the weights
+//@ func (CreateMultisigData).basicCheck
+//@   serves C07 C05
+//@   nopanic
+//@   ensures failcode: result != nil ==> result.Code != 0
+//@   ensures [C07,C05] samecount: result == nil ==> len(data.Addresses) == len(data.Weights) && len(data.Weights) <= 32
+//@   ensures [C05] weights: result == nil ==> forall i int :: 0 <= i && i < len(data.Weights) ==> data.Weights[i] <= 1023
+//@   loop 0 invariant idx: -1 <= rangeindex && rangeindex < len(data.Weights)
+//@   loop 0 invariant small: forall i int :: 0 <= i && i <= rangeindex ==> data.Weights[i] <= 1023
+//@   loop 1 invariant idx: -1 <= rangeindex && rangeindex < len(data.Addresses)
+//@   loop 1 invariant small: forall i int :: 0 <= i && i < len(data.Weights) ==> data.Weights[i] <= 1023
